@@ -74,7 +74,7 @@ theorem step_matches (env : Env) (re a : Int) (pc : Nat) (st mem : List Int) (it
 /-! ### boolean position, short-circuit `and` / `or` -/
 
 theorem runs_boolpos {env : Env} {code : List Instr} {c : Ctx} {l : LEnv} {pure : Bool} (f : List Instr) (t : Ty) (w : Int)
-    (ih : Runs env code f c l pure [w]) : Runs env code (f ++ strToBool t) c l pure [boolWord env.blocks t w] := by
+    (ih : Runs env code f c l pure [w]) : Runs env code (f ++ strToBool t) c l pure [boolWord env.fops env.blocks t w] := by
   by_cases ht : t = .str
   · subst ht
     simp only [strToBool, boolWord, beq_self_eq_true, if_true]
@@ -186,6 +186,25 @@ theorem RunsV.weaken {env : Env} {code f : List Instr} {c : Ctx} {l : LEnv} {pur
     (h : RunsV env code f c l true t v) : RunsV env code f c l pure t v := by
   obtain ⟨w, hr, hw⟩ := h
   exact ⟨w, hr.weaken, hw⟩
+
+/-- the OP_INT_TO_DBL the compiler inserts after the two operands of a mixed int / double operation: depth 2 = the left
+    operand, depth 1 = the right one; nothing when the operand types agree -/
+theorem runs_conv {env : Env} {code f : List Instr} {c : Ctx} {l : LEnv} {pure : Bool} (ta tb : Ty) (wa wb : Int)
+    (hf : Runs env code f c l pure [wb, wa]) :
+    Runs env code (f ++ conv ta tb) c l pure [convB env.fops ta tb wb, convA env.fops ta tb wa] := by
+  unfold conv
+  by_cases h1 : (ta == .int && tb == .flt) = true
+  · have h2 : (ta == .flt && tb == .int) = false := by
+      cases ta <;> cases tb <;> simp_all
+    simp only [h1, if_true, convA, convB, h2, Bool.false_eq_true, if_false]
+    exact Runs.opL (.intToDbl 2) [wb, wa] [wb, promoteW env.fops wa] hf (fun pc st mem its => by simp [step, promoteW])
+  · have h1' : (ta == .int && tb == .flt) = false := by simpa using h1
+    by_cases h2 : (ta == .flt && tb == .int) = true
+    · simp only [h1', Bool.false_eq_true, if_false, h2, if_true, convA, convB]
+      exact Runs.opL (.intToDbl 1) [wb, wa] [promoteW env.fops wb, wa] hf (fun pc st mem its => by simp [step, promoteW])
+    · have h2' : (ta == .flt && tb == .int) = false := by simpa using h2
+      simp only [h1', h2', Bool.false_eq_true, if_false, convA, convB, List.append_nil]
+      exact hf
 
 /-- in boolean position (after OP_STR_TO_BOOL when the static type is string) the word is a truth word -/
 theorem RunsV.boolpos {env : Env} {code f : List Instr} {c : Ctx} {l : LEnv} {pure : Bool} {t : Ty} {v : Val}
@@ -440,26 +459,55 @@ theorem exec_loopfree (env : Env) (henv : EnvOk env) (code : List Instr) :
   | .neg e, c, l, hl, hw => by
     apply RunsV.ofExact
     simp only [WF] at hw
-    have ih := (exec_loopfree env henv code e c l (by simpa [loopFree] using hl) hw.1).exact (by rw [hw.2.1]; decide)
     have ht := wf_typed env c l e hw.1
-    rw [hw.2.1] at ht
-    simp only [compile, hw.2.1, eval]
-    exact Runs.val1 (vm_neg _ _ ht) (Runs.op (.un .OP_INT_MINUS) _ _ ih (fun _ _ _ _ => rfl))
+    rcases hw.2.1 with hty | hty
+    · have ih := (exec_loopfree env henv code e c l (by simpa [loopFree] using hl) hw.1).exact (by rw [hty]; decide)
+      rw [hty] at ht
+      simp only [compile, hty, eval]
+      exact Runs.val1 (vm_neg _ _ ht) (Runs.op (.un .OP_INT_MINUS) _ _ ih (fun _ _ _ _ => rfl))
+    · have ih := (exec_loopfree env henv code e c l (by simpa [loopFree] using hl) hw.1).exact (by rw [hty]; decide)
+      rw [hty] at ht
+      have hcode : compile c (.neg e) = compile c e ++ [.un .OP_DBL_MINUS] := by simp [compile, hty]
+      rw [hcode]
+      simp only [eval]
+      exact Runs.val1 (vm_neg_flt env.blocks _ ht) (Runs.op (.un .OP_DBL_MINUS) _ _ ih (fun _ _ _ _ => rfl))
   | .arith op a b, c, l, hl, hw => by
     apply RunsV.ofExact
     simp only [WF] at hw
     simp only [loopFree, Bool.and_eq_true] at hl
-    have iha := (exec_loopfree env henv code a c l hl.1 hw.1).exact (by rw [hw.2.2.1]; decide)
-    have ihb := (exec_loopfree env henv code b c l hl.2 hw.2.1).exact (by rw [hw.2.2.2.1]; decide)
-    have hta := wf_typed env c l a hw.1
-    have htb := wf_typed env c l b hw.2.1
-    rw [hw.2.2.1] at hta
-    rw [hw.2.2.2.1] at htb
-    have hcode : compile c (.arith op a b) = (compile c a ++ compile c b) ++ [.bin (arithOp .int op)] := by
-      cases op <;> simp [compile, hw.2.2.1, hw.2.2.2.1, conv, numTy]
-    rw [hcode]
-    simp only [eval]
-    exact Runs.val1 (vm_arith _ _ _ _ hta htb) (Runs.op (.bin (arithOp .int op)) _ _ (Runs.seq iha ihb) (fun _ _ _ _ => rfl))
+    obtain ⟨hwa, hwb, hca, hcb, _, hpr⟩ := hw
+    have hna : tyOf c a ≠ .bool := by rcases hca with h | ⟨_, h⟩ <;> rw [h] <;> decide
+    have hnb : tyOf c b ≠ .bool := by rcases hcb with h | ⟨_, h⟩ <;> rw [h] <;> decide
+    have iha := (exec_loopfree env henv code a c l hl.1 hwa).exact hna
+    have ihb := (exec_loopfree env henv code b c l hl.2 hwb).exact hnb
+    have hta := wf_typed env c l a hwa
+    have htb := wf_typed env c l b hwb
+    by_cases hii : tyOf c a = .int ∧ tyOf c b = .int
+    · rw [hii.1] at hta
+      rw [hii.2] at htb
+      have hcode : compile c (.arith op a b) = (compile c a ++ compile c b) ++ [.bin (arithOp .int op)] := by
+        cases op <;> simp [compile, hii.1, hii.2, conv, numTy]
+      rw [hcode]
+      simp only [eval]
+      exact Runs.val1 (vm_arith _ _ _ _ hta htb) (Runs.op (.bin (arithOp .int op)) _ _ (Runs.seq iha ihb) (fun _ _ _ _ => rfl))
+    · -- a double operand: `+ - * \` only, the integer operand (if any) is promoted by OP_INT_TO_DBL
+      have hop : isFltOp op = true := by
+        rcases hca with h | ⟨h, _⟩
+        · rcases hcb with h' | ⟨h', _⟩
+          · exact absurd ⟨h, h'⟩ hii
+          · exact h'
+        · exact h
+      have hta' : tyOf c a = .int ∨ tyOf c a = .flt := by rcases hca with h | ⟨_, h⟩ <;> simp [h]
+      have htb' : tyOf c b = .int ∨ tyOf c b = .flt := by rcases hcb with h | ⟨_, h⟩ <;> simp [h]
+      have hnum : numTy (tyOf c a) (tyOf c b) = .flt := by
+        rcases hta' with h | h <;> rcases htb' with h' | h' <;> simp_all [numTy]
+      have hcode : compile c (.arith op a b) =
+          ((compile c a ++ compile c b) ++ conv (tyOf c a) (tyOf c b)) ++ [.bin (arithOp .flt op)] := by
+        cases op <;> simp [isFltOp] at hop <;> simp [compile, hnum]
+      rw [hcode]
+      simp only [eval]
+      exact Runs.val1 (vm_arith_flt env.blocks op hop _ _ _ _ hta' htb' hii hta htb hpr)
+        (Runs.op (.bin (arithOp .flt op)) _ _ (runs_conv _ _ _ _ (Runs.seq iha ihb)) (fun _ _ _ _ => rfl))
   | .bnot e, c, l, hl, hw => by
     apply RunsV.ofExact
     simp only [WF] at hw
@@ -562,21 +610,33 @@ theorem exec_loopfree (env : Env) (henv : EnvOk env) (code : List Instr) :
     apply RunsV.ofExact
     simp only [WF] at hw
     simp only [loopFree, Bool.and_eq_true] at hl
-    obtain ⟨hwa, hwb, hty⟩ := hw
+    obtain ⟨hwa, hwb, hty, hpr⟩ := hw
     have ra := exec_loopfree env henv code a c l hl.1 hwa
     have rb := exec_loopfree env henv code b c l hl.2 hwb
     have hta := wf_typed env c l a hwa
     have htb := wf_typed env c l b hwb
     rcases hty with ⟨h1, h2⟩ | ⟨h1, h2⟩
-    · have iha := ra.exact (by rw [h1]; decide)
-      have ihb := rb.exact (by rw [h2]; decide)
-      rw [h1] at hta
-      rw [h2] at htb
-      have hcode : compile c (.cmp op a b) = (compile c a ++ compile c b) ++ [.bin (cmpOp .int op)] := by
-        simp [compile, h1, h2, conv, numTy]
-      rw [hcode]
-      simp only [eval]
-      exact Runs.val1 (vm_cmp_int _ _ _ _ hta htb) (Runs.op (.bin (cmpOp .int op)) _ _ (Runs.seq iha ihb) (fun _ _ _ _ => rfl))
+    · have hna : tyOf c a ≠ .bool := by rcases h1 with h | h <;> rw [h] <;> decide
+      have hnb : tyOf c b ≠ .bool := by rcases h2 with h | h <;> rw [h] <;> decide
+      have iha := ra.exact hna
+      have ihb := rb.exact hnb
+      by_cases hii : tyOf c a = .int ∧ tyOf c b = .int
+      · rw [hii.1] at hta
+        rw [hii.2] at htb
+        have hcode : compile c (.cmp op a b) = (compile c a ++ compile c b) ++ [.bin (cmpOp .int op)] := by
+          simp [compile, hii.1, hii.2, conv, numTy]
+        rw [hcode]
+        simp only [eval]
+        exact Runs.val1 (vm_cmp_int _ _ _ _ hta htb) (Runs.op (.bin (cmpOp .int op)) _ _ (Runs.seq iha ihb) (fun _ _ _ _ => rfl))
+      · have hnum : numTy (tyOf c a) (tyOf c b) = .flt := by
+          rcases h1 with h | h <;> rcases h2 with h' | h' <;> simp_all [numTy]
+        have hcode : compile c (.cmp op a b) =
+            ((compile c a ++ compile c b) ++ conv (tyOf c a) (tyOf c b)) ++ [.bin (cmpOp .flt op)] := by
+          simp [compile, hnum]
+        rw [hcode]
+        simp only [eval]
+        exact Runs.val1 (vm_cmp_flt env.blocks op _ _ _ _ h1 h2 hii hta htb hpr)
+          (Runs.op (.bin (cmpOp .flt op)) _ _ (runs_conv _ _ _ _ (Runs.seq iha ihb)) (fun _ _ _ _ => rfl))
     · have iha := ra.exact (by rw [h1]; decide)
       have ihb := rb.exact (by rw [h2]; decide)
       rw [h1] at hta
@@ -743,7 +803,10 @@ theorem exec_loopfree (env : Env) (henv : EnvOk env) (code : List Instr) :
     · simp only [hp, toVm, isU, isUndef_of_ne ha, Bool.false_eq_true, if_false]
       rw [count_strset env set (fun ms => ms.any fun m => m.1 == a)]
       exact w_of q _ _ _ (List.countP_le_length) (fun h => ⟨by have := wf_typed env c l qe (hwq h).1; rwa [(hwq h).2.1] at this, (hwq h).2.2⟩)
-  | .flt _, _, _, _, hw => by simp [WF] at hw
+  | .flt w, c, l, _, _ => by
+    apply RunsV.ofExact
+    simp only [compile, eval, toVm]
+    exact Runs.push1 _ _ (fun _ _ _ _ _ => rfl)
   | .pctStr p set, c, l, hl, hw => by
     apply RunsV.ofExact
     simp only [WF] at hw
